@@ -252,6 +252,7 @@ fn silent_peer(ctx: &Ctx) -> Outcome {
     let st = |ack, wnd| Act::Deliver(Pkt::State { ack, wnd, sack: SackSpec::None });
     let alphabet = vec![
         Act::Write(40),
+        Act::Write(10),
         Act::DropWriter,
         Act::DropReader,
         st(AckSpec::All, WndSpec::Bytes(0)),
@@ -261,6 +262,10 @@ fn silent_peer(ctx: &Ctx) -> Outcome {
         Act::Deliver(Pkt::Fin { off: 0, ack: AckSpec::All }),
         Act::Deliver(Pkt::Fin { off: 0, ack: AckSpec::Cur }),
         st(AckSpec::Beyond, WndSpec::Default),
+        // an acknowledgement of everything riding on a data packet (a plain ST_STATE with the peer's next
+        // sequence number that acknowledges our FIN is taken as the peer's FIN: fin-wait-2 is only reached
+        // this way)
+        Act::Deliver(Pkt::Data { off: 0, ack: AckSpec::All, wnd: WndSpec::Default }),
         Act::Tick,
         Act::Sleep(13_000),
     ];
@@ -276,10 +281,10 @@ fn silent_peer(ctx: &Ctx) -> Outcome {
         for h in &frontier {
             for a in 0..n as u8 {
                 // each half is dropped at most once, one write at most twice
-                if (a == 1 || a == 2) && h.contains(&a) {
+                if (a == 2 || a == 3) && h.contains(&a) {
                     continue;
                 }
-                if a == 0 && h.iter().filter(|x| **x == 0).count() >= 2 {
+                if (a == 0 || a == 1) && h.iter().filter(|x| **x == a).count() >= 2 {
                     continue;
                 }
                 let mut g = h.clone();
@@ -290,7 +295,7 @@ fn silent_peer(ctx: &Ctx) -> Outcome {
         hists.extend(next.iter().cloned());
         frontier = next;
     }
-    let hists: Vec<Vec<u8>> = hists.into_iter().filter(|h| h.contains(&1) && h.contains(&2)).collect();
+    let hists: Vec<Vec<u8>> = hists.into_iter().filter(|h| h.contains(&2) && h.contains(&3)).collect();
     let results: Vec<Option<(Vec<u8>, u64, Option<(String, String)>)>> = hists
         .par_iter()
         .map(|h| {
@@ -298,7 +303,7 @@ fn silent_peer(ctx: &Ctx) -> Outcome {
             hist.push(sleep_idx);
             let (_, wm) = bfs::execute(&d, &hist, true)?;
             let (w, _) = wm?;
-            let let_go_step = h.iter().rposition(|a| *a == 1 || *a == 2).unwrap();
+            let let_go_step = h.iter().rposition(|a| *a == 2 || *a == 3).unwrap();
             let lg = w.trace.iter().find(|r| r.step == let_go_step + 1).map(|r| r.t_us).unwrap_or(0);
             let end_t = w.trace.iter().find(|r| r.obs_after.is_none()).map(|r| r.t_us);
             let last = w.trace.last().unwrap();
@@ -339,8 +344,8 @@ fn silent_peer(ctx: &Ctx) -> Outcome {
     }
     part.distinct_nontrivial = classes.len() as u64;
     part.distinct_outcomes = classes.len() as u64;
-    part.bound = format!("all sequences of <= {depth} actions over [write 40 B into a 20 B peer window, drop writer, drop reader, ACK-all wnd 0, ACK-all wnd 5, ACK+1 wnd 0, duplicate ACK, the peer's FIN (acknowledging everything / nothing new), an ACK for data never sent, timer] that drop both halves, each followed by 13 s without any packet from the peer; outcome classes = time from letting go to the end of the connection in 0.5 s buckets");
-    part.samples.push(json!({"history": [0, 7, 1, 2, 3, 8]}));
+    part.bound = format!("all sequences of <= {depth} actions over [write 40 B into a 20 B peer window, write 10 B, drop writer, drop reader, ACK-all wnd 0, ACK-all wnd 5, ACK+1 wnd 0, duplicate ACK, the peer's FIN (acknowledging everything / nothing new), an ACK for data never sent, a data packet acknowledging everything, timer] that drop both halves, each followed by 13 s without any packet from the peer; outcome classes = time from letting go to the end of the connection in 0.5 s buckets");
+    part.samples.push(json!({"history": [0, 2, 4, 3, 13]}));
     out.parts.push(part);
     out
 }
